@@ -12,6 +12,15 @@ B  the TLC state graph (every call and every failure point out of every state wi
    2 calls (paths of up to 3 calls).
 C  random histories (4 identities, up to 6 keys each, ~40 calls, failures, close / reopen) recorded
    from the real code and judged by TLC (KeychainTrace), invariants evaluated on every state.
+   SCALE histories (round 11), judged by the same module with larger constants, one TLC run per group:
+   `wide` - one identity is given w keys (quick: three histories, w drawn from 9-11 / 12-15 / 16-19; thorough: 16
+   histories, w up to 40), a few random calls follow, then the identity is deleted (in one piece; failing at a
+   step drawn from all 4w+2 of its program and repeated; by a second instance), what was beneath it is asked for,
+   the identity is made again, close / reopen;  `many` (thorough) - 12 identities with up to 2 keys each.
+   CROSS-FILED certificates (round 11, certificate slot 3 of the model, CertN = 3): import_cert of a certificate
+   whose name extends ANOTHER key's name (a listed one, a deleted one, one that never existed); once imported the
+   driver makes it the default certificate of its key and asks for signers through the key / the identity / the
+   default identity (names and objects, custom key locator), also after the key it is named after was deleted.
 
 Entry points / argument shapes exercised besides the plain calls (parameters of the op record, see the
 header of Keychain.tla): new_key with an explicit key_id (fresh, of a file left by a failed new_key, of a
@@ -55,9 +64,9 @@ def B(b):
     return 'TRUE' if b else 'FALSE'
 
 
-def consts(ids, maxkeys=2, depth=0, maxlevel=0, maxfaults=99, devs=None):
+def consts(ids, maxkeys=2, depth=0, maxlevel=0, maxfaults=99, devs=None, certn=2):
     devs = devs or {}
-    return {'Ids': ids, 'MaxKeys': maxkeys, 'Depth': depth, 'MaxLevel': maxlevel, 'MaxFaults': maxfaults,
+    return {'Ids': ids, 'MaxKeys': maxkeys, 'CertN': certn, 'Depth': depth, 'MaxLevel': maxlevel, 'MaxFaults': maxfaults,
             'DevScope': B(devs.get('DevScope')), 'DevCacheLoc': B(devs.get('DevCacheLoc')),
             'DevDelKey': B(devs.get('DevDelKey')), 'DevKeyId': B(devs.get('DevKeyId')),
             'DevDelCertView': B(devs.get('DevDelCertView')), 'DevCertObj': B(devs.get('DevCertObj')),
@@ -136,6 +145,16 @@ class Run:
     def find(self, sig, what):
         self.findings.append((sig, what))
 
+    def cross_default(self, o):
+        """Is the default certificate of the key the signing arguments select (as the views showed it before the
+        call) a cross-filed one?"""
+        p = self.proj
+        if not p or not p.get('open'):
+            return False
+        k = tuple(o['k']) if o['by'] == 'key' else p['defK'].get(o['i'] if o['by'] == 'identity' else p.get('defI'))
+        dc = p['defC'].get(k) if k is not None else None
+        return bool(dc) and dc != '?' and dc[1] == 3
+
     def beneath(self, o):
         if o['op'] == 'DelKey':
             return [tuple(o['k'])]
@@ -171,12 +190,16 @@ class Run:
                     self.find(PFX + 'GetSigner/signature-verifies-under-%d-keys' % len(sb),
                               '%s: probe signature verifies under %s' % (ostr(o), [kstr(k) for k in sb]))
                 elif sel is not None and sb[0] != sel:
-                    self.find(PFX + 'GetSigner/SignerMatchesKey/%s' % ('object-argument-signer-of-other-key' if o['t'] == 'obj'
+                    self.find(PFX + 'GetSigner/SignerMatchesKey/%s' % ('cross-filed-default-certificate-signer-of-other-key'
+                                                                       if self.cross_default(o) else
+                                                                       'object-argument-signer-of-other-key' if o['t'] == 'obj'
                                                                        else 'cached-signer-of-other-key'),
                               '%s returned a signer that signs with key %s, not with the selected key %s'
                               % (ostr(o), kstr(sb[0]), kstr(sel)))
                 elif o['by'] == 'identity' and sb[0][0] != o['i']:
-                    self.find(PFX + 'GetSigner/SignerMatchesKey/%s' % ('object-argument-signer-of-other-key' if o['t'] == 'obj'
+                    self.find(PFX + 'GetSigner/SignerMatchesKey/%s' % ('cross-filed-default-certificate-signer-of-other-key'
+                                                                       if self.cross_default(o) else
+                                                                       'object-argument-signer-of-other-key' if o['t'] == 'obj'
                                                                        else 'signer-of-other-identity'),
                               '%s returned a signer that signs with key %s of another identity' % (ostr(o), kstr(sb[0])))
             self.last_fail = (okey(o), ben) if (act == 'Fail' and res.get('fired')) else None
@@ -410,7 +433,32 @@ def jpost(p):
     return d
 
 
-def record(rng, ids, maxkeys, length):
+def wide_prefix(rng, ids, wide):
+    """The calls that make identity wide[0] hold wide[1] keys (through every entry point new_key has), after
+    some of the other identities were created (so that the wide one is not always the first row / the default)."""
+    wi, w = wide[:2]
+    q = [op('TouchIdentity', i=i, k=(i, 1)) for i in ids if i != wi and rng.random() < 0.5]
+    q.append(op('TouchIdentity', i=wi, k=(wi, 1)))
+    rsa = 0
+    for j in range(2, w + 1):
+        x = rng.random()
+        if x < 0.08 and rsa < 2:
+            rsa += 1
+            q.append(op('NewKey', i=wi, k=(wi, j), t='rsa'))
+        elif x < 0.25:
+            q.append(op('NewKey', i=wi, k=(wi, j), t='ec', loc='view'))
+        elif x < 0.35:
+            q.append(op('NewKey', i=wi, k=(wi, j), t='ec', by='keyid'))
+        else:
+            q.append(op('NewKey', i=wi, k=(wi, j), t='ec'))
+    return q
+
+
+def record(rng, ids, maxkeys, length, wide=None):
+    """wide = (identity, w, how): a SCALE history - the identity is first given w keys (w beyond anything the
+    random walk reaches), a few random calls follow, then the identity is deleted (completed, failed at any of its
+    4w+2 steps and retried, or by a second instance: how = 'step' | 'fail' | 'any') and what was beneath it is
+    asked for again."""
     run = Run(ids)
     ev = []
     nslot = {i: 0 for i in ids}
@@ -419,11 +467,42 @@ def record(rng, ids, maxkeys, length):
         proj, _ = run.store.projection()
         last = None
         hot, queue = [], []       # keys a signer was obtained for; calls to make next (directed sequences)
+        del_at = None
+        if wide:
+            queue = wide_prefix(rng, ids, wide)
+            del_at = len(queue) + rng.randint(0, 5)
         while len(ev) < length:
             if not proj['open']:
                 act, o, n, m = 'Reopen', None, None, 'call'
             elif queue:
-                act, o, n, m = 'Step', queue.pop(0), None, 'call'
+                x = queue.pop(0)
+                act, o, n, m = x if isinstance(x, tuple) else ('Step', x, None, 'call')
+            elif del_at is not None and len(ev) >= del_at:
+                # the wide identity goes: in one piece, failing at a step anywhere in its program (then repeated),
+                # or deleted by a second instance; afterwards what was beneath it is asked for, and it is made again
+                wi = wide[0]
+                del_at = None
+                mine = [k for k in proj['keys'] if k[0] == wi]
+                if wi not in proj['ids']:
+                    continue            # (the random calls in between have deleted it already)
+                x = {'step': 0.5, 'fail': 0.9}.get(wide[2], rng.random())
+                ext = x < 0.15 and not run.store.kc.conn.in_transaction
+                o = op('DelIdentity', i=wi, loc='ext' if ext else 'none')
+                act, n, m = 'Step', None, 'call'
+                if x > 0.6:
+                    act, n = 'Fail', rng.randint(1, 4 * len(mine) + 2)
+                    m = 'io' if rng.random() < 0.3 else 'call'
+                    queue.append(o)
+                for k in rng.sample(mine, min(3, len(mine))):
+                    if (k, 1) in run.store.cert:
+                        queue.append(op('GetSigner', c=(k, 1), by='cert', loc='cert'))
+                    queue.append(op('GetSigner', k=k, by='key', loc='cert'))
+                queue.append(op('GetSigner', by='default', loc='cert'))
+                if nslot[wi] < maxkeys:
+                    queue.append(op('TouchIdentity', i=wi, k=(wi, nslot[wi] + 1)))
+                    queue.append(op('GetSigner', i=wi, by='identity', loc='cert'))
+                queue.append(op('Close'))
+                last = None
             else:
                 keys, certs = proj['keys'], proj['certs']
                 known_keys = sorted(run.store.key)
@@ -452,6 +531,8 @@ def record(rng, ids, maxkeys, length):
                     if k in keys:
                         if (k, 2) not in certs:
                             cand.append((4, op('ImportCert', k=k)))
+                        if (k, 3) not in certs:       # cross-filed: named after another key / a key that never was
+                            cand.append((3, op('ImportCert', k=k, c=(k, 3), t=rng.choice(('xkey', 'xkey', 'xnone')))))
                         cand.append((3, op('SetDefKey', k=k)))
                         cand.append((2, op('DelKey', k=k)))
                         cand.append((1, op('DelKey', k=k, loc='view')))
@@ -468,10 +549,11 @@ def record(rng, ids, maxkeys, length):
                         cand.append((3, op('SetDefCert', c=c)))
                         cand.append((2, op('DelCert', c=c)))
                         cand.append((1, op('DelCert', c=c, loc='view')))
-                        cand.append((2, op('GetSigner', c=c, by='cert', loc='cert', t='obj')))
+                        if c[1] != 3:
+                            cand.append((2, op('GetSigner', c=c, by='cert', loc='cert', t='obj')))
                         if ext_ok:
                             cand.append((1, op('DelCert', c=c, loc='ext')))
-                    if c in certs or c[0] not in keys:
+                    if (c in certs or c[0] not in keys) and c[1] != 3:     # (cross-filed: never asked for by certificate)
                         for loc in ('cert', 'custom'):
                             cand.append((2 if c in certs else 1, op('GetSigner', c=c, by='cert', loc=loc)))
                 hot = [k for k in hot if k in keys]
@@ -514,6 +596,10 @@ def record(rng, ids, maxkeys, length):
                             break
                 n = rng.choice([1, 1, 2, 2, 3, 4, 5, 6, 7, 8, 9, 10]) if (o['op'] != 'Close' and o['loc'] != 'ext'
                                                                            and rng.random() < 0.22) else None
+                if n and o['op'] == 'DelIdentity':
+                    nk = len([k for k in keys if k[0] == o['i']])       # its program has 4 steps per key + 2
+                    if nk > 2 and rng.random() < 0.5:
+                        n = rng.randint(1, 4 * nk + 2)
                 m = 'io' if (n and rng.random() < 0.3) else 'call'
                 act = 'Fail' if n else 'Step'
             if o is not None and tuple(o['k']) != NOKEY and o['op'] in ('NewKey', 'TouchIdentity'):
@@ -523,6 +609,23 @@ def record(rng, ids, maxkeys, length):
             res, proj = run.step(act, o, n, m if act == 'Fail' else 'call')
             if o is not None and o['op'] == 'GetSigner' and res['out'] == 'ok' and res.get('signed_by'):
                 hot.append(res['signed_by'][0])
+            if act == 'Step' and o['op'] == 'ImportCert' and o['c'][1] == 3 and res['out'] == 'ok' and not queue \
+                    and proj['open'] and rng.random() < 0.6:
+                # a cross-filed certificate becomes the default of its key: signers through the key / the identity
+                k = tuple(o['k'])
+                queue.append(op('SetDefCert', c=(k, 3)))
+                if rng.random() < 0.5:
+                    queue.append(op('SetDefKey', k=k))
+                asks = [op('GetSigner', k=k, by='key', loc='cert'), op('GetSigner', k=k, by='key', loc='cert', t='obj'),
+                        op('GetSigner', k=k, by='key', loc='custom'), op('GetSigner', i=k[0], by='identity', loc='cert'),
+                        op('GetSigner', i=k[0], by='identity', loc='cert', t='obj'), op('GetSigner', by='default', loc='cert')]
+                queue += rng.sample(asks, 3)
+                peer = run.store.cert.get((k, 3), {}).get('peer')
+                if peer is not None and peer in proj['keys'] and rng.random() < 0.4:
+                    # the key the certificate is named after goes: the selected key and its private key are untouched
+                    queue.append(op('DelKey', k=peer))
+                    queue += rng.sample(asks[:5], 2)
+                last = None
             if act == 'Fail' and not res['fired']:
                 act, n = 'Step', None
                 run.last_fail = None
@@ -549,44 +652,50 @@ def record(rng, ids, maxkeys, length):
         run.close()
 
 
-def _record_chunk(args):
+IDS4 = ['A', 'B', 'C', 'D']
+
+
+def _record_chunk(jobs):
     import random
-    seeds, length = args
-    return [record(random.Random(sd), ['A', 'B', 'C', 'D'], MAXK['n'], length) for sd in seeds]
+    return [record(random.Random(j['seed']), j['ids'], j['maxkeys'], j['length'], j.get('wide')) for j in jobs]
 
 
-def record_many(seeds, length, procs):
+def record_many(jobs, procs):
+    """jobs = [{'seed', 'ids', 'maxkeys', 'length', 'wide'?}] -> [(events, findings)] in the same order."""
     import multiprocessing as mp
     kckit.patch_library()
     kckit.rsa_pool(6)
-    if procs <= 1 or len(seeds) < 8:
-        return _record_chunk((seeds, length))
+    if procs <= 1 or len(jobs) < 8:
+        return _record_chunk(jobs)
+    # the scale histories are the long ones: deal them out first, one per chunk
+    order = sorted(range(len(jobs)), key=lambda j: (0 if jobs[j].get('wide') else 1, j))
     n = procs * 2
-    chunks = [(seeds[i::n], length) for i in range(n)]
+    chunks = [[jobs[j] for j in order[i::n]] for i in range(n)]
     with mp.get_context('fork').Pool(procs) as pool:
         res = pool.map(_record_chunk, chunks)
-    out = [None] * len(seeds)
+    out = [None] * len(jobs)
     for ci, r in enumerate(res):
         for j, x in enumerate(r):
-            out[ci + j * n] = x
+            out[order[ci + j * n]] = x
     return out
 
 
-def trace_cfg(ctx, flags, name):
+def trace_cfg(ctx, flags, name, ids=None, maxkeys=None):
     invs = [i for i in INVS if not any(flags.get(f) and i in DEV_EXCLUDES[f] for f in flags)]
     p = os.path.join(tlc.BUILD, name)
-    tlc.write_cfg(p, spec='TSpec', constants=consts('{"A", "B", "C", "D"}', maxkeys=MAXK['n'], devs=flags), invariants=invs,
-                  constraints=['Mark'], postcondition='Post')
+    tlc.write_cfg(p, spec='TSpec', constants=consts('{%s}' % ', '.join('"%s"' % i for i in (ids or IDS4)),
+                                                    maxkeys=maxkeys or MAXK['n'], devs=flags, certn=3),
+                  invariants=invs, constraints=['Mark'], postcondition='Post')
     return p, invs
 
 
-def judge(ctx, recs, flags, name):
+def judge(ctx, recs, flags, name, ids=None, maxkeys=None):
     tf = os.path.join(tlc.BUILD, '%s-%s.ndjson' % (name, ctx.tier))
     with open(tf, 'w') as f:
         for r in recs:
             f.write(json.dumps(r) + '\n')
-    cfgp, invs = trace_cfg(ctx, flags, '%s-%s.cfg' % (name, ctx.tier))
-    r, rejected = tlc.validate_traces('KeychainTrace', cfgp, tf)
+    cfgp, invs = trace_cfg(ctx, flags, '%s-%s.cfg' % (name, ctx.tier), ids, maxkeys)
+    r, rejected = tlc.validate_traces('KeychainTrace', cfgp, tf, tag=name)
     return r, rejected, invs
 
 
@@ -644,7 +753,9 @@ def run(ctx):
     ctx.rule = ('A: TLC exhaustive over all call / failure-point / close-reopen histories up to the depth bound '
                 '(A0 no failure: depth 6 quick / 8 thorough; A1 any number of failures: depth 4 / 5; A2 at most one failure: depth 6, thorough only); B: every transition of the TLC graph '
                 '(level bound) replayed on a real KeychainSqlite3+TpmFile; C: random histories over 4 identities judged '
-                'by TLC. non-trivial = distinct path / history containing an injected failure, a delete or a close')
+                'by TLC, plus scale histories (one identity of 9..19 keys quick / 9..40 thorough deleted; thorough: 12 identities) '
+                'and cross-filed certificates (imported under a key whose name they do not extend) made default. '
+                'non-trivial = distinct path / history containing an injected failure, a delete or a close')
     ctx.assumptions = ['PyCryptodome primitives and the sqlite3 module are trusted',
                        'a storage failure is modelled as the step raising without effect (sqlite3.OperationalError / OSError); '
                        'a failing commit leaves the transaction open, as SQLITE_BUSY does',
@@ -681,7 +792,7 @@ def run(ctx):
             ctx.note('as-found model %s: TLC finds %s violated after %d states' % (f, r.violated, r.distinct))
         # vacuity witnesses: situations the invariants talk about are reachable (one run, TLCSet registers)
         cfgp = os.path.join(tlc.BUILD, 'Keychain_w_%s.cfg' % ctx.tier)
-        tlc.write_cfg(cfgp, spec=None, init='WitnessInit', next_='NextA', constants=consts('{"A", "B"}', depth=4),
+        tlc.write_cfg(cfgp, spec=None, init='WitnessInit', next_='NextA', constants=consts('{"A", "B"}', depth=4, certn=3),
                       constraints=['WitnessMark'], postcondition='WitnessPost')
         r = tlc.run('Keychain', cfgp, workers=1, heavy=False)
         if 'UNREACHED' in r.out or not r.ok:
@@ -690,7 +801,9 @@ def run(ctx):
     if 'B' in ctx.stages:
         lvl = ctx.pick(4, 5)
         gcfg = os.path.join(tlc.BUILD, 'Keychain_g_%s.cfg' % ctx.tier)
-        tlc.write_cfg(gcfg, constants=consts('{"A", "B"}', maxlevel=lvl, devs=flags), constraints=['Bound'], raw='ALIAS DumpAlias')
+        # (thorough: with the cross-filed certificate slot - import it, make it the default, ask for the signer: 4 calls)
+        tlc.write_cfg(gcfg, constants=consts('{"A", "B"}', maxlevel=lvl, devs=flags, certn=ctx.pick(2, 3)), constraints=['Bound'],
+                      raw='ALIAS DumpAlias')
         g = graph.dump('Keychain', gcfg, workers=1, tag='c15g')
         ctx.add_tlc('Keychain graph, level bound %d (%d edges), flags as detected' % (lvl, g.n_edges), g.tlc)
         paths = graph.edge_cover_paths(g, max_len=80)
@@ -752,41 +865,107 @@ def run(ctx):
     if 'C' in ctx.stages:
         ntr, length = ctx.pick((80, 40), (1000, 40))
         MAXK['n'] = ctx.pick(4, 6)
-        recs = []
+        # groups of histories, one TLC run each (the model's constants differ):
+        #  std   the random walk over 4 identities (small stores, long histories);
+        #  wide  SCALE: one identity given w keys (w far beyond what the walk reaches: sizes at which a paged / batched /
+        #        chunked implementation starts its second round), a few random calls, then deleted - see record();
+        #  many  (thorough) SCALE the other way: 12 identities with up to 2 keys each.
+        groups = {'std': {'ids': IDS4, 'maxkeys': MAXK['n'], 'jobs': []}}
+        for _ in range(ntr):
+            groups['std']['jobs'].append({'seed': ctx.rng.getrandbits(48), 'ids': IDS4, 'maxkeys': MAXK['n'], 'length': length})
+        widths = [ctx.rng.randint(lo, hi) for lo, hi in ctx.pick(WIDE_QUICK, WIDE_THOROUGH)]
+        wmax = max(widths) + 2
+        groups['wide'] = {'ids': ['A', 'B'], 'maxkeys': wmax, 'jobs': [
+            {'seed': ctx.rng.getrandbits(48), 'ids': ['A', 'B'], 'maxkeys': wmax, 'length': w + 22,
+             'wide': (ctx.rng.choice(['A', 'B']), w, ('step', 'fail', 'any')[min(n, 2)])} for n, w in enumerate(widths)]}
+        if not ctx.quick:
+            ids12 = [chr(ord('A') + x) for x in range(12)]
+            groups['many'] = {'ids': ids12, 'maxkeys': 2, 'jobs': [
+                {'seed': ctx.rng.getrandbits(48), 'ids': ids12, 'maxkeys': 2, 'length': 70} for _ in range(40)]}
+        names = list(groups)
+        jobs = [j for g in names for j in groups[g]['jobs']]
+        recorded = record_many(jobs, ctx.pick(6, 12))
         fsc = Findings()
-        seeds = [ctx.rng.getrandbits(48) for _ in range(ntr)]
-        recorded = record_many(seeds, length, ctx.pick(6, 12))
-        for t in range(ntr):
-            ev, fnd = recorded[t]
-            rec = {'cfg': {'ids': ['A', 'B', 'C', 'D'], 'maxkeys': MAXK['n']}, 'ev': ev}
-            recs.append(rec)
-            acts = [e['a'] + ' ' + (e['o']['op'] if 'o' in e else '') for e in ev]
-            if any(e['a'] == 'Fail' or ('o' in e and e['o']['op'] in ('DelKey', 'DelIdentity', 'DelCert', 'Close')) for e in ev):
-                ctx.nt(['C', [json.dumps(e.get('o', {}), sort_keys=True) + e['a'] + str(e.get('n')) for e in ev]])
-            for sig, what in fnd:
-                fsc.add(sig, 'random history: ' + what, {'kind': 'trace', 'rec': rec, 'sig': sig, 'flags': flags}, t)
+        pos = 0
+        for g in names:
+            G = groups[g]
+            G['recs'] = []
+            for t in range(len(G['jobs'])):
+                ev, fnd = recorded[pos]
+                pos += 1
+                rec = {'cfg': {'ids': G['ids'], 'maxkeys': G['maxkeys']}, 'ev': ev}
+                if G['jobs'][t].get('wide'):
+                    rec['cfg']['wide'] = list(G['jobs'][t]['wide'])
+                G['recs'].append(rec)
+                if any(e['a'] == 'Fail' or ('o' in e and e['o']['op'] in ('DelKey', 'DelIdentity', 'DelCert', 'Close')) for e in ev):
+                    ctx.nt(['C', [json.dumps(e.get('o', {}), sort_keys=True) + e['a'] + str(e.get('n')) for e in ev]])
+                for sig, what in fnd:
+                    fsc.add(sig, '%s history: %s' % ({'std': 'random', 'wide': 'scale (wide identity)', 'many': 'scale (many identities)'}[g], what),
+                            {'kind': 'trace', 'rec': rec, 'sig': sig, 'flags': flags}, pos + (100000 if g != 'std' else 0))
         fsc.flush(ctx)
+        recs = groups['std']['recs']
         ctx.sample({'kind': 'C-trace', 'events': [e['a'] + ' ' + (ostr(kckit_op(e['o'])) if 'o' in e else '') for e in recs[0]['ev']][:25]})
-        r, rejected, invs = judge(ctx, recs, flags, 'c15-traces')
-        ctx.add_tlc('KeychainTrace (%d histories of %d calls, 4 identities)' % (len(recs), length), r)
-        ctx.traces += len(recs)
-        ctx.evaluations += sum(len(x['ev']) for x in recs)
-        nfail = sum(1 for x in recs for e in x['ev'] if e['a'] == 'Fail')
+        ctx.sample({'kind': 'C-trace-wide', 'wide': groups['wide']['recs'][0]['cfg']['wide'],
+                    'events': [e['a'] + ' ' + (ostr(kckit_op(e['o'])) if 'o' in e else '') for e in groups['wide']['recs'][0]['ev']][-22:]})
+        # the TLC runs (one JVM each, single worker) side by side
+        from concurrent.futures import ThreadPoolExecutor
+        with ThreadPoolExecutor(len(names)) as ex:
+            futs = {g: ex.submit(judge, ctx, groups[g]['recs'], flags, 'c15-traces' + ('' if g == 'std' else '-' + g),
+                                 groups[g]['ids'], groups[g]['maxkeys']) for g in names}
+            judged = {g: futs[g].result() for g in names}
+        label = {'std': '%d histories of %d calls, 4 identities' % (len(recs), length),
+                 'wide': '%d scale histories, one identity of %s keys' % (len(widths), '/'.join(str(w) for w in sorted(widths))),
+                 'many': 'scale histories of 70 calls, 12 identities'}
+        invs = judged['std'][2]
+        allrecs = [x for g in names for x in groups[g]['recs']]
+        ctx.traces += len(allrecs)
+        ctx.evaluations += sum(len(x['ev']) for x in allrecs)
+        nfail = sum(1 for x in allrecs for e in x['ev'] if e['a'] == 'Fail')
+        # vacuity of the two dimensions added in round 11
+        ncross = sum(1 for x in allrecs for e in x['ev'] if e['a'] == 'Step' and e['o']['op'] == 'GetSigner'
+                     and e['o']['by'] != 'cert' and e['r']['out'] == 'ok' and e['r']['lc'][1] == 3)
+        wdel = []
+        for x in groups['wide']['recs']:
+            wi = x['cfg']['wide'][0]
+            prev = []
+            for e in x['ev']:
+                if 'o' in e and e['o']['op'] == 'DelIdentity' and e['o']['i'] == wi:
+                    wdel.append(len([k for k in prev if k[0] == wi]))
+                prev = e['post'].get('keys', prev)
         ctx.note('C: %d histories, %d events, %d injected failures, invariants on every state: %s' % (
-            len(recs), sum(len(x['ev']) for x in recs), nfail, ','.join(invs)))
+            len(allrecs), sum(len(x['ev']) for x in allrecs), nfail, ','.join(invs)))
+        ctx.note('C: %d signers obtained through a key / identity whose default certificate is cross-filed; identities deleted '
+                 'while holding %s keys' % (ncross, sorted(wdel, reverse=True)[:len(widths)]))
+        ctx.extra['scale'] = {'wide_identity_keys': sorted(widths), 'keys_beneath_deleted_identity': sorted(wdel, reverse=True),
+                              'signers_via_cross_filed_default': ncross}
         if nfail == 0:
             raise tlc.MachineryError('vacuous: no failure was injected in stage C')
-        if r.violated:
-            report(ctx, 'C15/KeychainSqlite3/trace-invariant/%s' % r.violated,
-                   'invariant %s violated on a recorded history' % r.violated, {'kind': 'tlc', 'trace': r.errtrace})
-        for i, l in rejected:
-            rec = recs[i - 1]
-            lno = int(l) if l else 0
-            bad = rec['ev'][lno - 1] if 0 < lno <= len(rec['ev']) else None
-            what = (bad['a'] + '-' + bad['o']['op']) if bad and 'o' in bad else (bad['a'] if bad else 'end')
-            report(ctx, 'C15/KeychainSqlite3/trace/%s' % what,
-                   'history rejected by KeychainTrace at event %s: %s' % (lno, json.dumps(bad)),
-                   {'kind': 'trace', 'rec': rec, 'rejected_at': lno, 'flags': flags})
+        if ncross == 0:
+            raise tlc.MachineryError('vacuous: no signer was obtained through a cross-filed default certificate in stage C')
+        if not wdel or max(wdel) < min(widths):
+            raise tlc.MachineryError('vacuous: no wide identity was deleted in stage C (%s)' % wdel)
+        for g in names:
+            r, rejected, _ = judged[g]
+            ctx.add_tlc('KeychainTrace (%s)' % label[g], r)
+            ctx.note('C: KeychainTrace (%s): %.0fs' % (label[g], r.wall))
+            grecs = groups[g]['recs']
+            if r.violated:
+                report(ctx, 'C15/KeychainSqlite3/trace-invariant/%s' % r.violated,
+                       'invariant %s violated on a recorded history' % r.violated, {'kind': 'tlc', 'trace': r.errtrace})
+            for i, l in rejected:
+                rec = grecs[i - 1]
+                lno = int(l) if l else 0
+                bad = rec['ev'][lno - 1] if 0 < lno <= len(rec['ev']) else None
+                what = (bad['a'] + '-' + bad['o']['op']) if bad and 'o' in bad else (bad['a'] if bad else 'end')
+                report(ctx, 'C15/KeychainSqlite3/trace/%s' % what,
+                       'history rejected by KeychainTrace at event %s: %s' % (lno, json.dumps(bad)),
+                       {'kind': 'trace', 'rec': rec, 'rejected_at': lno, 'flags': flags})
+
+
+# keys of the wide identity, one scale history per range: (quick: a thin sample; thorough: up to 40)
+WIDE_QUICK = ((9, 11), (12, 15), (16, 19))
+WIDE_THOROUGH = ((9, 10), (11, 12), (13, 14), (15, 16), (17, 18), (19, 21), (22, 24), (25, 28), (29, 32), (33, 36), (37, 40),
+                 (9, 40), (9, 40), (9, 40), (9, 40), (9, 40))
 
 
 def kckit_op(jo):
@@ -820,7 +999,7 @@ def replay(ctx, path):
         return 1 if hit else 0
     if kind == 'trace':
         MAXK['n'] = obj['rec']['cfg'].get('maxkeys', 6)
-        r, rejected, invs = judge(ctx, [obj['rec']], dict(FLAGS), 'c15-replay')
+        r, rejected, invs = judge(ctx, [obj['rec']], dict(FLAGS), 'c15-replay', obj['rec']['cfg'].get('ids'), MAXK['n'])
         print('rejected' if rejected else 'accepted by KeychainTrace', rejected, 'violated=%s' % r.violated)
         if obj.get('sig'):
             # implementation-level finding: re-run the recorded calls on the real code
